@@ -311,3 +311,24 @@ func hasDirectiveInsideElement(b []byte) bool {
 		}
 	}
 }
+
+// ---- C08: expressions ----
+
+func FuzzC08(f *testing.F) {
+	for _, e := range hostileExprs {
+		f.Add(e)
+	}
+	for _, e := range []string{"/r/a[last()]", "//node()[. = $n]", "count(//a) + sum(//b) div 2", "substring(//a, 1.5, 2.6)", "//*[lang('en')]", "/r/p:a | //@*", "8 div 2 div 2", "7 - 2 - 1", "1 = 1 = 1",
+		"a -1", "a - 1", "* * *", "*[* * 2 > 1]", "child::child/self::self", "(//a)[1]/..", "$v/a//b", "- - 1", "1 or 2 and 0", "-(1 + 2) * 3 mod 2", "//a[position() = last()][1]", "string(/)"} {
+		f.Add(e)
+	}
+	f.Fuzz(func(t *testing.T, expr string) {
+		if len(expr) > 256 {
+			return
+		}
+		c := &c08TextCase{Text: expr}
+		if err := checkC08Sandwich(c); err != nil {
+			fuzzViolation(t, "C08", "c08-sandwich", "FuzzC08", c, err)
+		}
+	})
+}
